@@ -9,6 +9,7 @@ reference is stable; groups with a mismatch are re-run with 20 repetitions of th
 """
 import itertools
 import json
+import os
 import random
 import re
 import time
@@ -239,8 +240,36 @@ def union_of(parts, pattern):
     return len(m), edges, partmaps
 
 
+HUNGRY = []     # connected inputs on which the network-simplex layerer needs >= 2 pivots (harvested by harvest_pivot_hungry)
+
+
+def harvest_pivot_hungry(work, driver, tier, rng):
+    """spec -> code input selection with the help of hook H3: random connected DAG-like inputs are run once and those on which the
+    layerer pivots at least twice are kept (1-3 % of 7-10 node inputs).  With a small thoroughness such a component exhausts its
+    pivot budget - a budget that depends on the component's own size and must not depend on its neighbours in the input."""
+    cs = []
+    for n, e in random_inputs(rng, 2500 if tier == "quick" else 15000, 7, 11, density=1.4, connected=True, loop_rate=0):
+        cs.append(K.case(n, e, p1="dfs", p2="ns", p4="valign", p5="straight", fixed=[6, 4], case=len(cs) + 1))
+    d = work.sub("hungry")
+    cpath, tpath = os.path.join(d, "cases.ndjson"), os.path.join(d, "trace.ndjson")
+    with open(cpath, "w") as fh:
+        for c in cs:
+            fh.write(json.dumps(c, separators=(",", ":")) + "\n")
+    core.run_cases(driver, "run", cpath, tpath, budget_ms=3000, mem_mb=400)
+    out = []
+    with open(tpath) as fh:
+        for line in fh:
+            if line.startswith('{"ev":"Return"'):
+                m = re.search(r'"case":(\d+).*"pivots":(\d+)', line)
+                if m and int(m.group(2)) >= 2:
+                    c = cs[int(m.group(1)) - 1]
+                    out.append((c["n"], c["edges"]))
+    core.log("[C09] %d of %d random connected inputs make the layerer pivot at least twice; used as parts with thoroughness 1" % (len(out), len(cs)))
+    return out
+
+
 def c09_cases(tier, rng):
-    combos = grid(p1=K.P1S, p2=K.P2S, p4=K.P4_ALL, p5=["poly", "straight", "ortho"], ns=[0, 2, 5], virt=[0, 1])
+    combos = grid(p1=K.P1S, p2=K.P2S, p4=K.P4_ALL, p5=["poly", "straight", "ortho"], ns=[0, 2, 5], virt=[0, 1], thor=[-1, -1, 1])
     small = [(n, e) for n, e, r in K.family("E33") if r["conn"] == 1]
     med = [(n, e) for n, e, r in K.family("E44") if r["conn"] == 1 and len(e) >= 3]
     npairs = 1200 if tier == "quick" else 12000
@@ -254,6 +283,12 @@ def c09_cases(tier, rng):
             n2, e2 = K.random_multigraph(rng, 4, 9, connected=True)
             parts[0] = (n2, e2)
         cb = combos_l[t % len(combos_l)]
+        if HUNGRY and t % 5 == 1:
+            # a tiny component (a self-looped node, or one edge) listed before / after a component that exhausts a small pivot budget
+            tiny = rng.choice([(1, [[1, 1]]), (2, [[1, 2]]), (3, [[1, 2], [2, 3]])])
+            hungry = rng.choice(HUNGRY)
+            parts = [tiny, hungry] if rng.random() < 0.7 else [hungry, tiny]
+            cb = dict(cb, p2="ns", thor=rng.choice([1, 1, 2]))
         pat_seq = []
         for pi, (pn, pe) in enumerate(parts):
             pat_seq += [pi] * len(pe)
@@ -317,6 +352,8 @@ def run_relational(prop, tier, seed, replay, families=FAMILIES, extra_models=Non
                 c["g"] = 1
         else:
             rng = random.Random(seed * 7919 + int(prop[1:]))
+            if prop == "C09":
+                HUNGRY[:] = harvest_pivot_hungry(work, driver, tier, random.Random(seed * 31 + 9))
             cs = list(families[prop](tier, rng))
         procs = 2 if prop == "C07" else 1
         res = engine.run_layout_cases(work, driver, props or [prop], cs, procs=procs)
